@@ -1,6 +1,7 @@
 package props
 
 import (
+	"time"
 	"encoding/base64"
 	"fmt"
 	"strings"
@@ -385,7 +386,17 @@ func (st *c03State) callback(a Action) {
 	mark := len(st.wit.Events)
 	snapBefore := TakeSnap(w, SnapOpts{})
 	d.Out = append(d.Out, world.Pkg{Cmd: cb.Cmd, RID: rid, Body: body})
-	w.Checkin(d)
+	if a.D%7 == 3 {
+		// the request body crawls in over a slow link (12 virtual seconds between its halves): it
+		// is still one package, to be read whole
+		pk := d.Out
+		d.Out = nil
+		c := w.Do(world.AgentReq{Port: d.Port, URI: d.URI, Headers: d.Hdrs, Peer: d.Peer, Body: d.Frame(pk), SlowBody: 12 * time.Second})
+		w.Absorb(d, c)
+		res.Probe("slow-request-bodies")
+	} else {
+		w.Checkin(d)
+	}
 	st.wit.Pump()
 	// console text attributed to this agent since the callback
 	var text strings.Builder
